@@ -30,7 +30,7 @@ Fixpoint decl_sorts_s (s : cstmt) : lenv :=
   | _ => []
   end
 with decl_sorts_ss (l : cstmts) : lenv := match l with SNil => [] | SCons s t => decl_sorts_s s ++ decl_sorts_ss t end.
-Definition special_sorts : lenv := [("EA", SBv 32); ("i", SBv 32); ("j", SBv 32); ("k", SBv 32)]%N.
+Definition special_sorts : lenv := [("EA", SBv 32); ("i", SBv 32); ("j", SBv 32); ("k", SBv 32); ("ret_val", SBv 64)]%N.
 
 (* per case: (guard flags, #states on which C is defined, first failing (seed, kind), well-sorted, wf_body, linear);
    None = real body does not denote *)
